@@ -296,17 +296,18 @@ namespace ratio
     CORE_EXPORT arith_expr core::mult(const std::vector<arith_expr> &xprs) noexcept
     {
         assert(xprs.size() > 1);
+        // (bounds and values are asked to the theory the factor belongs to: a time point is not an LRA variable)
         if (auto var_it = std::find_if(xprs.cbegin(), xprs.cend(), [this](const auto &ae)
-                                       { return lra_th.lb(ae->l) != lra_th.ub(ae->l); });
+                                       { const auto bnds = arith_bounds(ae); return bnds.first != bnds.second; });
             var_it != xprs.cend())
         {
             lin l = (*var_it)->l;
             for (auto it = xprs.cbegin(); it != xprs.cend(); ++it)
                 if (it != var_it) // every other factor, the same item appearing again included..
                 {
-                    assert(lra_th.lb((*it)->l) == lra_th.ub((*it)->l) && "non-linear expression..");
-                    assert(lra_th.value((*it)->l).get_infinitesimal() == rational::ZERO);
-                    l *= lra_th.value((*it)->l).get_rational();
+                    assert(arith_bounds(*it).first == arith_bounds(*it).second && "non-linear expression..");
+                    assert(arith_value(*it).get_infinitesimal() == rational::ZERO);
+                    l *= arith_value(*it).get_rational();
                 }
             return new arith_item(*this, get_type(xprs), l);
         }
@@ -315,8 +316,8 @@ namespace ratio
             lin l = (*xprs.cbegin())->l;
             for (auto it = ++xprs.cbegin(); it != xprs.cend(); ++it)
             {
-                assert(lra_th.value((*it)->l).get_infinitesimal() == rational::ZERO);
-                l *= lra_th.value((*it)->l).get_rational();
+                assert(arith_value(*it).get_infinitesimal() == rational::ZERO);
+                l *= arith_value(*it).get_rational();
             }
             return new arith_item(*this, get_type(xprs), l);
         }
@@ -326,14 +327,14 @@ namespace ratio
     {
         assert(xprs.size() > 1);
         assert(std::all_of(++xprs.cbegin(), xprs.cend(), [this](const auto &ae)
-                           { return lra_th.lb(ae->l) == lra_th.ub(ae->l); }) &&
+                           { const auto bnds = arith_bounds(ae); return bnds.first == bnds.second; }) &&
                "non-linear expression..");
-        assert(lra_th.value(xprs[1]->l).get_infinitesimal() == rational::ZERO);
-        rational c = lra_th.value(xprs[1]->l).get_rational();
+        assert(arith_value(xprs[1]).get_infinitesimal() == rational::ZERO);
+        rational c = arith_value(xprs[1]).get_rational();
         for (size_t i = 2; i < xprs.size(); ++i)
         {
-            assert(lra_th.value(xprs[i]->l).get_infinitesimal() == rational::ZERO);
-            c *= lra_th.value(xprs[i]->l).get_rational();
+            assert(arith_value(xprs[i]).get_infinitesimal() == rational::ZERO);
+            c *= arith_value(xprs[i]).get_rational();
         }
         return new arith_item(*this, get_type(xprs), xprs.at(0)->l / c);
     }
